@@ -48,7 +48,7 @@ def worker_program(rnd, forever=True, adoptees=None):
 
 
 def gen_case(rnd, spec):
-    gen = {"accept_delay": rnd.choice([0.03, 0.05]), "payloads": [], "services": [], "grace": 0.2}
+    gen = {"accept_delay": rnd.choice([0.03, 0.05]), "payloads": [], "services": [], "grace": 0.2, "ticker": True}
     script = [["wait_running", 10]]
     direction = rnd.choice(["asyncio_to_trio", "trio_to_asyncio"])
     for fl in common.COROUTINE:
@@ -142,8 +142,13 @@ def gen_case(rnd, spec):
     # a crowd of blocking thread payloads, with coroutine payloads adopting more thread payloads meanwhile
     if rnd.random() < 0.25:
         crowd = rnd.choice([40, 70, 130])
+        ops = []
         for i in range(crowd):
-            gen["payloads"].append({"id": new("crowd"), "flavour": "threading", "when": "queued", "program": [["block", 0.6]], "cleanup": {"kind": "none"}})
+            # adopted by an outside thread once the runtime runs: queued before start, the loop thread itself would be
+            # busy starting 130 threads while the first of them already block (a start-up cost, not a stall by blocking)
+            gen["payloads"].append({"id": new("crowd"), "flavour": "threading", "program": [["block", 0.6]], "cleanup": {"kind": "none"}})
+            ops.append(["adopt", gen["payloads"][-1]["id"]])
+        script.append(["thread", ops])
         for fl in common.COROUTINE:
             ops = [["sleep", 0.1]]
             for j in range(6):
@@ -230,6 +235,12 @@ def judge(case, run, result):
         if ended is not None and ended["seq"] < end[0]["seq"]:
             result.count("blocking_windows_cut_short_by_runtime_end")
             continue  # the runtime ended while the thread was blocked: heartbeats legitimately stop
+        ticks = [e for e in run.of("tick", gen=0) if s["seq"] < e["seq"] < end[0]["seq"]]
+        if len(ticks) < 15:
+            # even a plain thread sleeping 10 ms at a time hardly ran in these 0.6 s: the machine is starved,
+            # nothing can be said about this window
+            result.count("blocking_windows_skipped_machine_starved")
+            continue
         for fl in common.COROUTINE:
             beats = [e for e in run.of("beat", gen=0, pid="heart_" + fl) if s["seq"] < e["seq"] < end[0]["seq"]]
             if len(beats) < 2:
